@@ -335,6 +335,9 @@ func genCB(g *h.Gen) {
 		if r.Chance(90) {
 			w, hh = r.Range(1, 6), r.Range(1, 4)
 		}
+		if fillZWSuffix() != "" {
+			ops = append(ops, "V fz")
+		}
 		ops = append(ops, fmt.Sprintf("R %d %d", w, hh))
 		nops := r.Range(5, 60)
 		cx := func() int { return r.Range(-2, w+1) }
